@@ -173,6 +173,10 @@ class GateRules(Rule):
                 if not rq.nested and len(d.apis) == 1 and (d.raw_writes or d.timers_new or d.timers_cancel or d.xcalls):
                     L.violate("C14", "A1", "effects:%s:%s" % (ctx, _effects(d)),
                               "refused %s() had effects: %s" % (rq.m, _effects(d)))
+                ac = getattr(rq, "attrs_changed", None)
+                if ac and refused_state:
+                    L.violate("C14", "A1", "effects:%s:protocol-attributes:%s" % (ctx, "+".join(ac)),
+                              "refused %s() changed the protocol object: %s" % (rq.m, ", ".join(ac)))
             else:
                 if refused_state:
                     L.violate("C14", "A2", "refused:%s" % ctx,
